@@ -737,6 +737,7 @@ def _subst(ops, match: str):
 
 def apply_edit(world: World, project: dict, edit: list, ses: Session | None = None):
     kind = edit[0]
+    before = world.read(edit[1]) if len(edit) > 1 and isinstance(edit[1], str) and kind not in ("env",) else None
     if kind == "set":
         path, ver = edit[1], edit[2]
         world.write(path, source_text(path, ver))
@@ -772,7 +773,9 @@ def apply_edit(world: World, project: dict, edit: list, ses: Session | None = No
     else:
         raise ValueError(f"unknown edit {edit}")
     if ses is not None:
-        ses.emit("ext_edit", edit=_jsonable(edit), clock=_logical_ns())
+        after = world.read(edit[1]) if len(edit) > 1 and isinstance(edit[1], str) and kind not in ("env",) else None
+        ses.emit("ext_edit", edit=_jsonable(edit), changed=bool(before != after or kind in ("rmdir", "mvdir", "todir")),
+                 clock=_logical_ns())
 
 
 class RunResult:
